@@ -32,7 +32,7 @@ func run(r *common.Run) error {
 	if repo == "" {
 		repo = "/repo"
 	}
-	c := &ctx{r: r, repo: repo}
+	c := &ctx{r: r, repo: repo, stalls: map[string]int{}}
 	an, err := analyse(repo)
 	if err != nil {
 		r.Notes = append(r.Notes, "skeleton extraction failed: "+err.Error())
